@@ -6,7 +6,7 @@ use crate::{
 	arr::ArrValue,
 	bail,
 	error::ErrorKind::*,
-	evaluate,
+	evaluate, in_description_frame,
 	stdlib::std_format,
 	typed::IntoUntyped as _,
 	val::{equals, StrValue},
@@ -185,8 +185,12 @@ pub fn evaluate_compare_op(a: &Val, b: &Val, op: BinaryOpType) -> Result<Orderin
 			let ai = a.iter();
 			let bi = b.iter();
 
-			for (a, b) in ai.zip(bi) {
-				let ord = evaluate_compare_op(&a?, &b?, op)?;
+			for (i, (a, b)) in ai.zip(bi).enumerate() {
+				let (a, b) = (a?, b?);
+				let ord = in_description_frame(
+					|| format!("elem <{i}> comparison"),
+					|| evaluate_compare_op(&a, &b, op),
+				)?;
 				if !ord.is_eq() {
 					return Ok(ord);
 				}
